@@ -336,13 +336,14 @@ func runC15(cs *SCase, vis *c15Visit) (*CaseStats, error) {
 		case "preload":
 			var ids []atree.SlabID
 			var idx []int
-			n := []int{1, 3, 4, 12, 16}[op.N%5]
+			n := []int{1, 3, 4, 12, 16, 0}[op.N%6]
 			for k := 0; k < n && k < len(c15Universe); k++ {
 				j := (i + k) % len(c15Universe)
 				ids = append(ids, c15Universe[j])
 				idx = append(idx, j)
 			}
-			if err := s.BatchPreload(ids, 1+op.V%4); err != nil {
+			// worker counts below, at and far above the number of identifiers
+			if err := s.BatchPreload(ids, []int{1, 2, 3, 4, 16, 64}[op.V%6]); err != nil {
 				return st, fail("BatchPreload failed: %v", err)
 			}
 			for _, j := range idx {
@@ -417,8 +418,8 @@ func init() {
 						op.F = rapid.IntRange(1, 31).Draw(t, "f")
 					}
 				case "preload":
-					op.N = rapid.IntRange(0, 4).Draw(t, "pn")
-					op.V = rapid.IntRange(0, 3).Draw(t, "pw")
+					op.N = rapid.IntRange(0, 5).Draw(t, "pn")
+					op.V = rapid.IntRange(0, 5).Draw(t, "pw")
 				case "getnodelta":
 					op.C = rapid.Bool().Draw(t, "c")
 				}
